@@ -43,16 +43,12 @@ theorem pget_pset_other (m : PMap) (k k' : String) (v : Val) (h : k' ≠ k) : pg
 theorem setSeparators_api (s : PState) (l : String) : (setSeparators s l).api = s.api := by
   unfold setSeparators
   simp only
-  split
-  · rfl
-  · split <;> rfl
+  split <;> rfl
 
 theorem setSeparators_init (s : PState) (l : String) : (setSeparators s l).initialized = s.initialized := by
   unfold setSeparators
   simp only
-  split
-  · rfl
-  · split <;> rfl
+  split <;> rfl
 
 theorem setSeparators_user_other (s : PState) (l k : String) (h1 : k ≠ "DecimalSeparators") (h2 : k ≠ "BlockSeparators") :
     pget (setSeparators s l).user k = pget s.user k := by
@@ -60,11 +56,8 @@ theorem setSeparators_user_other (s : PState) (l k : String) (h1 : k ≠ "Decima
   simp only
   split
   · rfl
-  · split
-    · rfl
-    · simp only
-      rw [pget_pset_other _ _ _ _ h2, pget_pset_other _ _ _ _ h1]
-
+  · simp only
+    rw [pget_pset_other _ _ _ _ h2, pget_pset_other _ _ _ _ h1]
 
 theorem resetFiles_ok (E : Env) (s s1 : PState) (k v : String) (h : resetFiles E s k v = .ok s1) :
     s1.user = s.user ∧ s1.initialized = s.initialized ∧ (∀ k', k' ≠ "LanguageAuto" → pget s1.api k' = pget s.api k') := by
@@ -180,9 +173,9 @@ theorem storeUser_stores (s1 s' : PState) (k v : String) (h : storeUser s1 k v =
     · exact h0.2 h1 h2
 
 /-- **string preferences read back verbatim** -/
-theorem setStringPref_read_back (E : Env) (s s' : PState) (k v : String) (h : setStringPref E s k v = .ok s') :
+theorem setStringPrefCore_read_back (E : Env) (s s' : PState) (k v : String) (h : setStringPrefCore E s k v = .ok s') :
     prefToString s' k = some v := by
-  unfold setStringPref at h
+  unfold setStringPrefCore at h
   split at h
   · cases h
   · cases h
@@ -199,6 +192,28 @@ theorem setStringPref_read_back (E : Env) (s s' : PState) (k v : String) (h : se
     · injection h with h; subst h
       unfold prefToString
       simp [pget_pset_same, Val.render]
+
+theorem prefToString_setSeparators (s : PState) (l k : String) (h1 : k ≠ "DecimalSeparators") (h2 : k ≠ "BlockSeparators") :
+    prefToString (setSeparators s l) k = prefToString s k := by
+  unfold prefToString; rw [setSeparators_api, setSeparators_user_other s l k h1 h2]
+
+/-- an accepted `set_string_pref` is the store, followed for `LanguageAuto` by the separator recomputation -/
+theorem setStringPref_ok (E : Env) (s s' : PState) (k v : String) (h : setStringPref E s k v = .ok s') :
+    ∃ s2, setStringPrefCore E s k v = .ok s2 ∧ s' = (if k = "LanguageAuto" then setSeparators s2 v else s2) := by
+  unfold setStringPref at h
+  split at h
+  · rename_i s2 hc; injection h with h; exact ⟨s2, hc, h.symm⟩
+  · cases h
+  · cases h
+
+theorem setStringPref_read_back (E : Env) (s s' : PState) (k v : String) (h : setStringPref E s k v = .ok s') :
+    prefToString s' k = some v := by
+  obtain ⟨s2, hc, rfl⟩ := setStringPref_ok E s s' k v h
+  have := setStringPrefCore_read_back E s s2 k v hc
+  split
+  · rename_i hk; subst hk
+    rw [prefToString_setSeparators _ _ _ (by decide) (by decide)]; exact this
+  · exact this
 
 /-- the value `get_preference` is documented to return after an accepted `set_preference` -/
 def normalizedValue (E : Env) (s : PState) (n v : String) : String :=
@@ -329,11 +344,11 @@ theorem chooseMap_frame (E : Env) (s s1 : PState) (k v : String) (isUser : Bool)
       · injection h with h; injection h with h1 h2; subst h1; exact ⟨rfl, rfl⟩
     · cases h
 
-theorem setStringPref_frame (E : Env) (s s' : PState) (k v k' : String) (h : setStringPref E s k v = .ok s')
+theorem setStringPrefCore_frame (E : Env) (s s' : PState) (k v k' : String) (h : setStringPrefCore E s k v = .ok s')
     (hk : k' ≠ k) (hc : k' ∉ coupled) : prefToString s' k' = prefToString s k' := by
   simp only [coupled, List.mem_cons, List.not_mem_nil, or_false, not_or] at hc
   obtain ⟨h1, h2, h3⟩ := hc
-  unfold setStringPref at h
+  unfold setStringPrefCore at h
   split at h
   · cases h
   · cases h
@@ -347,6 +362,15 @@ theorem setStringPref_frame (E : Env) (s s' : PState) (k v k' : String) (h : set
     · injection h with h; subst h
       unfold prefToString
       simp only [pget_pset_other _ _ _ _ hk, fa, fu]
+
+theorem setStringPref_frame (E : Env) (s s' : PState) (k v k' : String) (h : setStringPref E s k v = .ok s')
+    (hk : k' ≠ k) (hc : k' ∉ coupled) : prefToString s' k' = prefToString s k' := by
+  obtain ⟨s2, hcore, rfl⟩ := setStringPref_ok E s s' k v h
+  have hf := setStringPrefCore_frame E s s2 k v k' hcore hk hc
+  simp only [coupled, List.mem_cons, List.not_mem_nil, or_false, not_or] at hc
+  split
+  · rw [prefToString_setSeparators _ _ _ hc.1 hc.2.1]; exact hf
+  · exact hf
 
 /-- **C12 frame**: an accepted `set_preference n` changes no other preference, except the documented couplings
 (`Language`/`DecimalSeparator` recompute `DecimalSeparators`/`BlockSeparators`; `Language := Auto` saves `LanguageAuto`). -/
@@ -402,7 +426,7 @@ theorem reject_unknown (E : Env) (s : PState) (n v : String)
       · simp only [hf, Bool.false_eq_true, if_false]
         have hb : isBooleanPref s n = none := by simp [isBooleanPref, ha, hu]
         have hs : ∀ val, setStringPref E s n val = .err "unknown-preference" := by
-          intro val; simp [setStringPref, chooseMap, ha, hu]
+          intro val; simp [setStringPref, setStringPrefCore, chooseMap, ha, hu]
         split
         · rw [hb]; exact ⟨_, rfl⟩
         · exact ⟨_, hs _⟩
@@ -428,8 +452,8 @@ theorem reject_non_boolean (E : Env) (s : PState) (n v : String) (b : Bool)
   simp only [hn1, hn2, hinit, hf, hv.1, hv.2, decide_false, Bool.or_self, Bool.false_eq_true, if_false, Bool.not_true,
     Bool.false_and]
   rcases hstored with h | ⟨h1, h2⟩
-  · simp [setStringPref, chooseMap, h]
-  · simp [setStringPref, chooseMap, h1, h2]
+  · simp [setStringPref, setStringPrefCore, chooseMap, h]
+  · simp [setStringPref, setStringPrefCore, chooseMap, h1, h2]
 
 /-! ## no panic -/
 
@@ -454,9 +478,9 @@ theorem storeUser_no_panic (s1 : PState) (k v : String) (hi : Inv s1) : ∀ p, s
   · simp only [hl']
     split <;> simp
 
-theorem setStringPref_no_panic (E : Env) (s : PState) (k v : String) (hi : Inv s) : ∀ p, setStringPref E s k v ≠ .panic p := by
+theorem setStringPrefCore_no_panic (E : Env) (s : PState) (k v : String) (hi : Inv s) : ∀ p, setStringPrefCore E s k v ≠ .panic p := by
   intro p
-  unfold setStringPref
+  unfold setStringPrefCore
   split
   · simp
   · rename_i p' hc
@@ -487,6 +511,14 @@ theorem setStringPref_no_panic (E : Env) (s : PState) (k v : String) (hi : Inv s
       have hi1 : Inv s1 := by unfold Inv; rw [hu]; exact hi
       exact storeUser_no_panic s1 k v hi1 p
     · simp
+
+theorem setStringPref_no_panic (E : Env) (s : PState) (k v : String) (hi : Inv s) : ∀ p, setStringPref E s k v ≠ .panic p := by
+  intro p
+  unfold setStringPref
+  split
+  · simp
+  · simp
+  · rename_i p' hc; exact absurd hc (setStringPrefCore_no_panic E s k v hi p')
 
 /-- **no panic**: in every state satisfying `Inv`, `set_preference` returns a value or an error for every name and value -/
 theorem setPreference_no_panic (E : Env) (s : PState) (n v : String) (hi : Inv s) :
@@ -539,8 +571,8 @@ theorem storeUser_inv (s1 s' : PState) (k v : String) (h : storeUser s1 k v = .o
     · have := storeUser_frame s1 s' k v "Language" h (fun e => hk e.symm) (by decide) (by decide)
       exact ⟨l, by rw [this, hl]⟩
 
-theorem setStringPref_inv (E : Env) (s s' : PState) (k v : String) (h : setStringPref E s k v = .ok s') (hi : Inv s) : Inv s' := by
-  unfold setStringPref at h
+theorem setStringPrefCore_inv (E : Env) (s s' : PState) (k v : String) (h : setStringPrefCore E s k v = .ok s') (hi : Inv s) : Inv s' := by
+  unfold setStringPrefCore at h
   split at h
   · cases h
   · cases h
@@ -550,6 +582,18 @@ theorem setStringPref_inv (E : Env) (s s' : PState) (k v : String) (h : setStrin
     split at h
     · exact storeUser_inv s1 s' k v h hi1
     · injection h with h; subst h; exact hi1
+
+theorem setSeparators_inv (s : PState) (l : String) (hi : Inv s) : Inv (setSeparators s l) := by
+  unfold Inv at *
+  rw [setSeparators_user_other s l _ (by decide) (by decide), setSeparators_user_other s l _ (by decide) (by decide)]
+  exact hi
+
+theorem setStringPref_inv (E : Env) (s s' : PState) (k v : String) (h : setStringPref E s k v = .ok s') (hi : Inv s) : Inv s' := by
+  obtain ⟨s2, hcore, rfl⟩ := setStringPref_ok E s s' k v h
+  have h2 := setStringPrefCore_inv E s s2 k v hcore hi
+  split
+  · exact setSeparators_inv _ _ h2
+  · exact h2
 
 /-- the invariant behind `no_panic` holds initially and is kept by every accepted `set_preference`:
 so no sequence of calls can reach a state in which `set_preference` panics. -/
